@@ -12,7 +12,7 @@ import ticc_util as tu
 from common import show_list, frac_str
 
 LEVEL = "other"
-LEAN_PROPS = ["FastTicc.Props.C02", "FastTicc.Props.Compose", "FastTicc.Props.C03", "FastTicc.Props.C11", "FastTicc.Props.C18", "FastTicc.Props.C02matrix", "FastTicc.Props.C02opt", "FastTicc.Props.AdmmSolve", "FastTicc.Props.C02conv"]
+LEAN_PROPS = ["FastTicc.Props.C02", "FastTicc.Props.Compose", "FastTicc.Props.C03", "FastTicc.Props.C11", "FastTicc.Props.C18", "FastTicc.Props.C02matrix", "FastTicc.Props.C02opt", "FastTicc.Props.AdmmSolve", "FastTicc.Props.C02conv", "FastTicc.Props.PyFor"]
 LEAN_HELPERS = ["FastTicc.Proofs.Admm", "FastTicc.Proofs.Compose", "FastTicc.Proofs.AdmmMatrix", "FastTicc.Proofs.LogDet"]
 LEAN_TRANSLATED = {"FastTicc.Props.TrSoft": ["soft_threshold_prox"],
                    "FastTicc.Props.TrZUpdate": ["soft_threshold_prox", "compute_lambda_sum", "admm_update_z", "locations_compressed",
